@@ -4,7 +4,7 @@ CONSTANTS
   MaxTerm = 2
   MaxLog = 4
   NonCmdKinds = {}
-  WarmStart = FALSE
+  WarmStart = TRUE
   MaxRestarts = 1
   UpgradeStrong = TRUE
   VerifyQuorum = TRUE
